@@ -137,3 +137,15 @@ package storage
 //@   requires q != nil && q.add != nil && !chanClosed(q.add) && ctx != nil
 //@   ensures [C11.add.chan] result != nil && fresh(result) && cap(result) == 1
 //@   modifies family(CH_len)
+
+// ---------------------------------------------------------------- streamed range answers (C09)
+
+//@ import regattapb "github.com/jamf/regatta/regattapb"
+//@ func (*Engine).getHeader
+//@   assumed
+//@   modifies nothing
+// the conversion of a state-machine chunk into a streamed answer keeps pairs, count and the `more` flag
+//@ func (*Engine).IterateRange$1
+//@   requires s != nil
+//@   ensures [C09.stream.copy] result != nil && fresh(result) && sameSlice(result.Kvs, s.Kvs) && result.More == s.More && result.Count == s.Count
+//@   modifies nothing
